@@ -29,7 +29,7 @@ REACH = {"quick": {"op:rbind": 2000, "op:rename": 500, "op:colnames": 500, "op:s
 OPS = ["rbind", "rbind", "rbind", "select", "unselect", "rename", "cbind", "update", "modify", "colnames"]
 PROMOTE = {"int": ["int", "float", "bool"], "float": ["float", "int", "bool"], "bool": ["bool", "int"], "date": ["date", "datetime"],
            "datetime": ["datetime", "date"], "str": ["str", "lstr", "ustr"], "lstr": ["lstr", "str"], "ustr": ["ustr", "str"], "obool": ["obool"], "obj": ["obj"]}
-NAMES = ["a", "b", "c", "d", "e", "f"]
+NAMES = ["a", "b", "c", "d", "e", "f", "ab", "e_f"]      # some names are substrings of others
 
 def generate(rng, tier):
     tags = set()
@@ -109,9 +109,13 @@ def generate(rng, tier):
             mods = []
             for n in rng.sample(names + ["u", "v"], rng.randint(1, 3)):
                 k = rng.choice(["int", "float", "str", "bool", "date"])
-                form = rng.choice(["scalar", "vector", "callable", "callable_scalar"])
+                form = rng.choice(["scalar", "vector", "callable", "callable_scalar", "callable_col", "callable_col"])
                 if nrow == 0 and form in ("scalar", "callable_scalar"):
                     form = "vector"
+                if form == "callable_col":
+                    # a function of the data frame: reads one of the receiver's columns (possibly one that another keyword of the same call replaces)
+                    mods.append((n, rng.choice(names), form, []))
+                    continue
                 vals = gen.gen_values(rng, k, 1 if form in ("scalar", "callable_scalar") else nrow, "none", "few", 0.2, tags)
                 mods.append((n, k, form, vals))
             case["mods"] = mods
@@ -235,6 +239,13 @@ def execute(case):
             exp = {n: pre[n] for n in names}
             order = list(names)
             for n, k, form, vals in case["mods"]:
+                if form == "callable_col":
+                    kw[n] = (lambda src: (lambda d: d[src].copy()))(k)
+                    exp[n] = pre[k]
+                    res.cls("modify:function-of-receiver-column")
+                    if n not in order:
+                        order.append(n)
+                    continue
                 arr = gen.np_column(k, vals)
                 cells = gen.expected_cells(k, vals)
                 if form == "scalar":
